@@ -14,11 +14,46 @@ Definition with_obs (c : case) (o : obs) : case :=
 Lemma oval_eqb_refl : forall a, oval_eqb a a = true.
 Proof. destruct a; simpl; [reflexivity | apply String.eqb_refl]. Qed.
 
-Lemma value_oval_eqb : forall p v w, val_eqb v w = true -> oval_eqb (value_oval p v) (value_oval p w) = true.
+Lemma oval_eqb_eq : forall a b, oval_eqb a b = true -> a = b.
+Proof. intros [|x] [|y] H; simpl in H; try discriminate; [reflexivity|]. apply String.eqb_eq in H. congruence. Qed.
+
+Lemma ores_eqb_eq : forall a b, ores_eqb a b = true -> a = b.
+Proof. intros [x|] [y|] H; simpl in H; try discriminate; [|reflexivity]. apply oval_eqb_eq in H. congruence. Qed.
+
+Lemma oresp_eqb_eq : forall a b, oresp_eqb a b = true -> a = b.
+Proof. intros [] [] H; simpl in H; try discriminate; reflexivity. Qed.
+
+Lemma oerr_eqb_eq : forall a b, oerr_eqb a b = true -> a = b.
+Proof.
+  intros [|x|x|x] [|y|y|y] H; simpl in H; try discriminate; try reflexivity.
+  - apply String.eqb_eq in H; congruence.
+  - apply Nat.eqb_eq in H; congruence.
+  - apply String.eqb_eq in H; congruence.
+Qed.
+
+Lemma pobs_eqb_eq : forall a b, pobs_eqb a b = true -> a = b.
+Proof.
+  intros [n1 r1 p1 e1] [n2 r2 p2 e2] H. unfold pobs_eqb in H; simpl in H.
+  repeat (apply andb_true_iff in H; destruct H as [H ?]).
+  apply Nat.eqb_eq in H. apply ores_eqb_eq in H2. apply oresp_eqb_eq in H1. apply oerr_eqb_eq in H0.
+  congruence.
+Qed.
+
+Lemma pobs_eqb_refl : forall a, pobs_eqb a a = true.
+Proof.
+  intros [n r p e]. unfold pobs_eqb; simpl. rewrite Nat.eqb_refl.
+  assert (ores_eqb r r = true) as -> by (destruct r; simpl; [apply oval_eqb_refl | reflexivity]).
+  assert (oresp_eqb p p = true) as -> by (destruct p; reflexivity).
+  assert (oerr_eqb e e = true) as ->
+    by (destruct e; simpl; try reflexivity; try apply String.eqb_refl; apply Nat.eqb_refl).
+  reflexivity.
+Qed.
+
+Lemma value_oval_ext : forall p v w, val_eqb v w = true -> value_oval p v = value_oval p w.
 Proof.
   intros p v w H. unfold val_eqb in H. apply andb_true_iff in H as [Hj Hn].
   apply String.eqb_eq in Hj. apply Bool.eqb_prop in Hn.
-  unfold value_oval. rewrite Hj, Hn. apply oval_eqb_refl.
+  unfold value_oval. rewrite Hj, Hn. reflexivity.
 Qed.
 
 Lemma slot_value_oval : forall (p : bool) (v : val),
@@ -32,9 +67,10 @@ Proof.
   apply cook_results_accepts in Hc. tauto.
 Qed.
 
-Theorem model_satisfies_Pb : forall c o,
+(* the model's observation IS the expected one, on every case *)
+Theorem model_obs_is_expected : forall c m,
   wf_results (c_results c) = true -> single_names (c_results c) = true ->
-  law_ok c = true -> model_obs c = Some o -> Pb (with_obs c o) = true.
+  law_ok c = true -> model_obs c = Some m -> pobs_of m = expected c.
 Proof.
   intros c o Hwf Hsn Hlaw Hm.
   pose proof (model_obs_accepted c o Hm) as Hacc.
@@ -47,7 +83,7 @@ Proof.
       discriminate Hm. }
   rewrite (method_returns_refines_spec val nat (fun _ _ => c_dec c) (c_body_verb c) (c_results c) (c_out c) Hwf Hacc Hsc) in Hm.
   clear Hsc.
-  unfold Pb, with_obs; simpl.
+  unfold expected.
   rewrite (declared_arity_single _ Hsn).
   unfold law_ok in Hlaw.
   destruct c as [bv rs out zero dec0 obs0]; simpl in *.
@@ -55,11 +91,11 @@ Proof.
   - (* (response, error) *)
     unfold spec_returns, spec_events in Hm. simpl in Hm.
     destruct out as [st x|r]; simpl in Hm.
-    + inversion Hm; subst; simpl. rewrite Nat.eqb_refl. reflexivity.
+    + inversion Hm; subst; reflexivity.
     + unfold status_error, class_of in Hm.
       destruct (Z.leb_spec 200 (r_status r)), (Z.ltb_spec (r_status r) 300),
                (Z.leb_spec 400 (r_status r)), (Z.ltb_spec (r_status r) 500), (Z.leb_spec 500 (r_status r));
-        simpl in Hm; inversion Hm; subst; simpl; rewrite ?String.eqb_refl, ?Nat.eqb_refl; try reflexivity; lia.
+        simpl in Hm; inversion Hm; subst; unfold pobs_of; simpl; rewrite ?Nat.eqb_refl; try reflexivity; lia.
   - (* (result, response, error) *)
     destruct Hacc as (_ & _ & _ & Hshape).
     assert (Hd : exists ty, declared_result [a; b; d] = Some (ty, match f_type a with TStar _ => true | _ => false end)).
@@ -68,22 +104,44 @@ Proof.
     unfold spec_returns, spec_events in Hm. rewrite Hd in Hm.
     set (p := match f_type a with TStar _ => true | _ => false end) in *.
     destruct out as [st x|r]; simpl in Hm.
-    + inversion Hm; subst; simpl. rewrite Nat.eqb_refl. reflexivity.
+    + inversion Hm; subst; reflexivity.
     + unfold status_error, class_of in Hm.
       destruct (Z.leb_spec 200 (r_status r)), (Z.ltb_spec (r_status r) 300),
                (Z.leb_spec 400 (r_status r)), (Z.ltb_spec (r_status r) 500), (Z.leb_spec 500 (r_status r));
         simpl in Hm; try lia.
-      all: try (inversion Hm; subst; simpl; rewrite ?String.eqb_refl, ?Nat.eqb_refl; reflexivity).
+      all: try (inversion Hm; subst; unfold pobs_of; simpl; rewrite ?Nat.eqb_refl; reflexivity).
       (* success: decode *)
-      destruct dec0 as [v [[|x]|]]; simpl in Hm; inversion Hm; subst; simpl;
+      destruct dec0 as [v [[|x]|]]; simpl in Hm; inversion Hm; subst; unfold pobs_of; simpl;
         rewrite ?slot_value_oval, ?Nat.eqb_refl; simpl.
       * (* io.EOF *)
-        destruct (String.eqb (b_data (r_body r)) "" && match b_fault (r_body r) with None => true | Some _ => false end);
-          apply value_oval_eqb; assumption.
+        destruct (empty_body (r_body r)); rewrite (value_oval_ext p v zero Hlaw); reflexivity.
       * (* other decode error *)
-        destruct (String.eqb (b_data (r_body r)) "" && match b_fault (r_body r) with None => true | Some _ => false end);
-          [discriminate|]. rewrite ?Nat.eqb_refl. reflexivity.
+        destruct (empty_body (r_body r)); [discriminate|]. reflexivity.
       * (* decoded *)
-        destruct (String.eqb (b_data (r_body r)) "" && match b_fault (r_body r) with None => true | Some _ => false end);
-          [discriminate|]. apply oval_eqb_refl.
+        destruct (empty_body (r_body r)); [discriminate|]. reflexivity.
+Qed.
+
+Theorem model_satisfies_Pb : forall c o,
+  wf_results (c_results c) = true -> single_names (c_results c) = true ->
+  law_ok c = true -> model_obs c = Some o -> Pb (with_obs c o) = true.
+Proof.
+  intros c o Hwf Hsn Hlaw Hm. unfold Pb.
+  change (c_obs (with_obs c o)) with o.
+  change (expected (with_obs c o)) with (expected c).
+  rewrite (model_obs_is_expected c o Hwf Hsn Hlaw Hm). apply pobs_eqb_refl.
+Qed.
+
+(* the boolean property holds of an observation exactly when it agrees with the
+   model on the four observables the property speaks about: a verdict "model and
+   implementation differ but the property holds" can only stem from the body
+   events (read / Close), which are not part of the property text *)
+Theorem Pb_iff_agrees_with_model : forall c m,
+  wf_results (c_results c) = true -> single_names (c_results c) = true ->
+  law_ok c = true -> model_obs c = Some m ->
+  (Pb c = true <-> pobs_of (c_obs c) = pobs_of m).
+Proof.
+  intros c m Hwf Hsn Hlaw Hm. unfold Pb.
+  rewrite (model_obs_is_expected c m Hwf Hsn Hlaw Hm). split.
+  - apply pobs_eqb_eq.
+  - intros ->. apply pobs_eqb_refl.
 Qed.
